@@ -1651,7 +1651,14 @@ static Node *stmt(Token **rest, Token *tok) {
     if (equal(tok, "...")) {
       // [GNU] Case ranges, e.g. "case 1 ... 5:"
       end = const_expr(&tok, tok->next);
-      if (end < begin)
+
+      // The bounds are compared in the type of the controlling
+      // expression, which may be unsigned long.
+      add_type(current_switch->cond);
+      bool is_empty = (end < begin);
+      if (current_switch->cond->ty->is_unsigned && current_switch->cond->ty->size == 8)
+        is_empty = ((uint64_t)end < (uint64_t)begin);
+      if (is_empty)
         error_tok(tok, "empty case range specified");
     } else {
       end = begin;
